@@ -788,6 +788,13 @@ func (env *Env) evalCall(e *ast.CallExpr) Val {
 				return x
 			}
 			return fc.makeIface(env.st, x, x.Typ, it)
+		case "tuple0", "tuple1", "tuple2":
+			x := env.eval(e.Args[0])
+			k := int(id.Name[5] - '0')
+			if k >= len(x.Tup) {
+				bail("%s: not a tuple with that component", id.Name)
+			}
+			return x.Tup[k]
 		case "ghost":
 			name := e.Args[0].(*ast.Ident).Name
 			return boolVal(fc.H(env.st, fc.ghostVar(name)))
